@@ -72,7 +72,7 @@ Fixpoint rows64 (anc : list N) (c : call) : list row :=
       ++ [let delta := sub64 t1 t0 in
           let ch := child64 kids 0 in
           let child := if delta <? ch then delta else ch in
-          mkrow a delta (sub64 delta child) (existsb (N.eqb a) anc)]
+          mkrow a delta (sub64 delta child) (negb (a =? 0) && existsb (N.eqb a) anc)]
   end.
 
 Lemma run_app st out l1 l2 :
@@ -83,17 +83,29 @@ Proof.
   - destruct (step st r) as [st' rows]. apply IH.
 Qed.
 
-Lemma has_addr_map a stk : has_addr a stk = existsb (N.eqb a) (map s_addr stk).
+(* the recursion test of the code as it is now: slots whose addr is 0 (frames never entered) do not count *)
+Lemma has_addr_map a stk : has_addr false a stk = negb (a =? 0) && existsb (N.eqb a) (map s_addr stk).
 Proof.
-  unfold has_addr. induction stk as [|s t IH]; cbn; [reflexivity|].
-  rewrite IH, N.eqb_sym. reflexivity.
+  induction stk as [|s t IH]; [cbn; rewrite andb_false_r; reflexivity|].
+  change (has_addr false a (s :: t)) with ((negb (s_addr s =? 0) && (s_addr s =? a)) || has_addr false a t).
+  rewrite IH. cbn [map existsb]. rewrite (N.eqb_sym a (s_addr s)).
+  destruct (N.eqb_spec (s_addr s) a) as [->|NE]; destruct (a =? 0) eqn:E0; cbn; try reflexivity.
+  - destruct (s_addr s =? 0); reflexivity.
+  - destruct (s_addr s =? 0); reflexivity.
+Qed.
+(* before the fix every slot counted *)
+Lemma has_addr_legacy a stk : has_addr true a stk = existsb (N.eqb a) (map s_addr stk).
+Proof.
+  induction stk as [|s t IH]; [reflexivity|].
+  change (has_addr true a (s :: t)) with ((s_addr s =? a) || has_addr true a t).
+  rewrite IH. cbn [map existsb]. rewrite N.eqb_sym. reflexivity.
 Qed.
 
 (* the state of a task in the middle of a LOST-free trace *)
-Definition mid (stk dead : list slot) (usc last lastx : N) : tstate := mkts true false stk dead 0 usc last lastx.
+Definition mid (stk dead : list slot) (usc last lastx : N) : tstate := mkts true false stk dead 0 usc last lastx false.
 
 Lemma step_entry stk s dd usc l lx d a t :
-  step (mid stk (s :: dd) usc l lx) (mkrec ENTRY d a t) = (mid (mkslot a t 0 true :: stk) dd (usc + 1) t lx, []).
+  step (mid stk (s :: dd) usc l lx) (mkrec ENTRY d a t) = (mid (mkslot a t 0 true :: stk) dd (usc + 1) t t, []).
 Proof. reflexivity. Qed.
 
 Lemma step_exit a0 t0 ch rest dead usc l lx d a t :
@@ -101,7 +113,7 @@ Lemma step_exit a0 t0 ch rest dead usc l lx d a t :
   (let delta := sub64 t t0 in
    let child := if delta <? ch then delta else ch in
    (mid (bump rest delta) (mkslot a0 delta child false :: dead) (usc - 1) t t,
-    [mkrow a delta (sub64 delta child) (has_addr a0 rest)])).
+    [mkrow a delta (sub64 delta child) (has_addr false a0 rest)])).
 Proof. reflexivity. Qed.
 
 Definition bump_top (top : slot) (d : N) : slot := mkslot (s_addr top) (s_total top) (add64 (s_child top) d) (s_valid top).
@@ -145,7 +157,7 @@ Proof.
   destruct dead as [|s dd]; [cbn in Hh; lia|]. cbn [length] in Hh.
   cbn [flat]. cbn [run]. rewrite step_entry. rewrite app_nil_r.
   rewrite run_app.
-  destruct (run_kids_gen kids IH (d + 1) a t0 0 stk dd (usc + 1) t0 lx out) as (dd' & l' & lx' & Hl & E); [lia|].
+  destruct (run_kids_gen kids IH (d + 1) a t0 0 stk dd (usc + 1) t0 t0 out) as (dd' & l' & lx' & Hl & E); [lia|].
   rewrite E. cbn [run]. rewrite step_exit. cbn zeta.
   exists (mkslot a (sub64 t1 t0) (if sub64 t1 t0 <? child64 kids 0 then sub64 t1 t0 else child64 kids 0) false :: dd').
   split; [cbn [length]; congruence|].
@@ -186,9 +198,11 @@ Fixpoint chain (lo : N) (l : list call) (hi : N) : Prop :=
   | k :: r => lo <= c_t0 k /\ chain (c_t1 k) r hi
   end.
 Inductive wt : call -> Prop :=
-| wt_call a t0 t1 kids : t0 <= t1 -> t1 < M64 -> Forall wt kids -> chain t0 kids t1 -> wt (Call a t0 t1 kids).
+| wt_call a t0 t1 kids : a <> 0 -> t0 <= t1 -> t1 < M64 -> Forall wt kids -> chain t0 kids t1 -> wt (Call a t0 t1 kids).
 
 Lemma wt_inv a t0 t1 kids : wt (Call a t0 t1 kids) -> t0 <= t1 /\ t1 < M64 /\ Forall wt kids /\ chain t0 kids t1.
+Proof. inversion 1; auto. Qed.
+Lemma wt_addr a t0 t1 kids : wt (Call a t0 t1 kids) -> a <> 0.
 Proof. inversion 1; auto. Qed.
 Lemma wt_le c : wt c -> c_t0 c <= c_t1 c /\ c_t1 c < M64.
 Proof. destruct c. intro H. apply wt_inv in H. cbn. tauto. Qed.
@@ -214,8 +228,9 @@ Qed.
 Theorem rows64_spec : forall c anc, wt c -> rows64 anc c = spec_rows anc c.
 Proof.
   induction c as [a t0 t1 kids IH] using call_ind'. intros anc H.
+  pose proof (wt_addr _ _ _ _ H) as Ha.
   apply wt_inv in H. destruct H as (H1 & H2 & H3 & H4).
-  cbn [rows64 spec_rows]. f_equal.
+  cbn [rows64 spec_rows]. replace (a =? 0) with false by lia. cbn [negb andb]. f_equal.
   - f_equal. apply map_ext_in. intros k Hk.
     rewrite Forall_forall in IH, H3. apply IH; auto.
   - destruct (chain_sumdur kids H3 _ _ H4) as [_ Hs].
@@ -583,16 +598,18 @@ Qed.
 Lemma finish_names tbl : map n_name (map finish_node tbl) = map n_name tbl.
 Proof. rewrite map_map. apply map_ext. reflexivity. Qed.
 
-Lemma report_names_sorted c : names_sorted (report c).
+Lemma report_gen_names_sorted leg c : names_sorted (report_gen leg c).
 Proof.
-  unfold report, table_of_rows, names_sorted. rewrite finish_names.
-  apply (table_lookup (c_names c) (all_rows c) []). constructor.
+  unfold report_gen, table_of_rows, names_sorted. rewrite finish_names.
+  apply (table_lookup (c_names c) (all_rows_gen leg c) []). constructor.
 Qed.
+Lemma report_names_sorted c : names_sorted (report c).
+Proof. apply report_gen_names_sorted. Qed.
 
 (* ================================================================== Part 5: the printed time *)
 Lemma fmt_time_us ns : 0 < ns -> ns < 1000000 -> fmt_time ns = Some (ns / 1000, ns mod 1000, 0).
 Proof.
-  intros H0 H1. unfold fmt_time. replace (ns =? 0) with false by lia.
+  intros H0 H1. unfold fmt_time, fmt_time_with. replace (ns =? 0) with false by lia.
   unfold llabs64. replace (ns <? 9223372036854775808) with true by lia.
   cbn [limits unit_loop next_limit nth].
   replace (ns / 1000 <? 1000) with true by lia. cbn [orb].
@@ -604,10 +621,10 @@ Theorem fmt_time_exact ns d f u : 0 < ns -> ns < 1000000 -> fmt_time ns = Some (
   u = 0 /\ ns = d * 1000 + f /\ f < 1000.
 Proof. intros H0 H1. rewrite fmt_time_us by assumption. intro E. injection E as <- <- <-. lia. Qed.
 
-(* up to 24 minutes the printed figure is the value truncated to the unit *)
-Theorem fmt_time_ok ns : ns < 1440000000000 -> ok_cell ns (fmt_time ns) = true.
+(* up to 1000 hours the printed figure is the value truncated to the unit *)
+Theorem fmt_time_ok ns : ns < 3600000000000000 -> ok_cell ns (fmt_time ns) = true.
 Proof.
-  intro H. unfold fmt_time. destruct (N.eqb_spec ns 0) as [->|NZ]; [reflexivity|].
+  intro H. unfold fmt_time, fmt_time_with. destruct (N.eqb_spec ns 0) as [->|NZ]; [reflexivity|].
   unfold llabs64. replace (ns <? 9223372036854775808) with true by lia.
   cbn [limits unit_loop next_limit nth orb].
   destruct (N.ltb_spec (ns / 1000) 1000) as [A|A]; cbn [orb].
@@ -616,13 +633,16 @@ Proof.
   { replace (999 <? ns / 1000 / 1000) with false by lia. cbn [ok_cell unit_ns N.of_nat Pos.of_succ_nat Pos.succ]. lia. }
   destruct (N.ltb_spec (ns / 1000 / 1000 / 1000) 60) as [C|C]; cbn [orb].
   { replace (999 <? ns / 1000 / 1000 / 1000) with false by lia. cbn [ok_cell unit_ns N.of_nat Pos.of_succ_nat Pos.succ]. lia. }
-  destruct (N.ltb_spec (ns / 1000 / 1000 / 1000 / 60) 24) as [D|D]; cbn [orb].
+  destruct (N.ltb_spec (ns / 1000 / 1000 / 1000 / 60) 60) as [D|D]; cbn [orb].
   { replace (999 <? ns / 1000 / 1000 / 1000 / 60) with false by lia. cbn [ok_cell unit_ns N.of_nat Pos.of_succ_nat Pos.succ]. lia. }
-  exfalso. lia.
+  rewrite orb_true_r.
+  replace (999 <? ns / 1000 / 1000 / 1000 / 60 / 60) with false by lia.
+  cbn [ok_cell unit_ns N.of_nat Pos.of_succ_nat Pos.succ]. lia.
 Qed.
 
-(* ... and from 24 minutes on it is not: minutes are divided by 24 to give "hours" *)
-Lemma fmt_time_hours_refuted :
+(* the code before the fix divided minutes by 24 to give "hours": 35 min was printed "1.011 h" *)
+Lemma fmt_time_hours_legacy_refuted :
   let ns := 35 * 60 * 1000000000 in
-  fmt_time ns = Some (1, 11, 4) /\ ok_cell ns (fmt_time ns) = false.
-Proof. vm_compute. split; reflexivity. Qed.
+  fmt_time_legacy ns = Some (1, 11, 4) /\ ok_cell ns (fmt_time_legacy ns) = false
+  /\ fmt_time ns = Some (35, 0, 3).
+Proof. vm_compute. repeat split; reflexivity. Qed.
